@@ -12,10 +12,12 @@ vars == <<chainVars, followerVars>>
 Init == ChainInit /\ FollowerInit
 
 ChainStep ==
-    \/ \E txs \in Contents(CC(best)) : Extend(txs)
-    \/ \E p \in (Blocks \cup {0}) : \E txs \in Contents(CC(Path(p))) : MineSide(p, txs)
-    \/ \E l \in Blocks : SwitchTo(l)
-    \/ \E t \in TxIds : Announce(t)
+    \/ /\ StrictOrder => ntfT = <<>>
+       /\ \/ \E txs \in Contents(CC(best)) : Extend(txs)
+          \/ \E p \in (Blocks \cup {0}) : \E txs \in Contents(CC(Path(p))) : MineSide(p, txs)
+          \/ \E l \in Blocks : SwitchTo(l)
+    \/ /\ StrictOrder => ntfB = <<>>
+       /\ \E t \in TxIds : Announce(t)
 
 Next ==
     \/ ChainStep /\ UNCHANGED followerVars
